@@ -16,7 +16,9 @@ SPEC = {
                   "an error path (C31_never_fails); no deadlock and every execution has at most |ps|*(2+11*|targets|) steps, so all "
                   "invocations exit 0 (C31_progress, C31_bounded, C31_all_succeed); final plz-out = a single clean build of each "
                   "process's request (C31_final_eq_clean); each action runs at most once, and exactly once iff it was stale initially "
-                  "(C31_runs_le_one, C31_runs_exact). CONDITIONAL like C01 on injective rule/path hash pre-images (C08/C09). The model "
+                  "(C31_runs_le_one, C31_runs_exact); what nobody asked for is untouched (C31_unrequested_untouched); the same "
+                  "discipline for the test step on its own small model (C31_test_mutex, C31_test_runs_bounded, C31_test_runs_once, "
+                  "C31_test_results_valid, C31_test_progress). CONDITIONAL like C01 on injective rule/path hash pre-images (C08/C09). The model "
                   "is instantiated with facts regenerated from lock.go / buildTarget / moveOutput / please.go (repo lock mode: shared; "
                   "C31_serialised_if_exclusive covers the other mode); C31_lock_needed is the kernel-checked negative control (a lock "
                   "that does not exclude makes an invocation fail). flock(2), rename(2) and the schedules of real processes are "
@@ -36,7 +38,8 @@ SPEC = {
         "when starting fresh), no overlapping executions of one action/test in the flock-protected event log, no repeated action",
         "modelled, not verified: Model/Lock.lean transcribes buildTarget's local path for genrule-style targets as atomic filesystem steps "
         "(acquire, needsBuilding, RemoveAll(tmp), action, StoreTargetMetadata, moveOutput keep | RemoveAll+Rename, xattr stamp, release); "
-        "stamp computed at check time (PathHasher memo); xattr mode (stamp lives on the output file)",
+        "stamp computed at check time (PathHasher memo); xattr mode (stamp lives on the output file); one output per target (an output "
+        "tree is one value); Model/LockTest.lean transcribes test_step.go's lock / needToRun / RemoveTestOutputs / run / cached results",
         "trusted: flock(2) excludes between open file descriptions; rename(2) is atomic; a worker's writes go to its tmp dir only",
         "out of model: the test step's own state machine (checked by the facts bracket and the end-to-end oracle only), remote execution, "
         "cache, subrepos, post-build functions, filegroups, `plz clean`/`plz update` running concurrently",
@@ -73,6 +76,9 @@ M5 moveOutput: `else if bytes.Equal(old,new)` -> `else if false && bytes.Equalâ€
                                                                                rebuilds of up-to-date targets.
                                                                                SECOND RESULT: exit 1: facts (30/31) + oracle
                                                                                "//p:t2: contents unchanged, inode 3948803 -> 3948841, executed 1 times"
+M9 moveOutput: bytes.Equal(oldHash, newHash) -> bytes.Equal(newHash, newHash) -> extractor level only (private VERIF_GENERATED): moveOutputKeepCond becomes
+                                                                               "bytes.Equal(hashOf(param2), hashOf(param2))" != expected -> facts fail
+                                                                               (locals are recorded by WHAT THEY ARE THE HASH OF, not by name)
 M6 harmless: local `file` -> `buildLock`, flock mode parameter `how` ->     -> exit 0, 30/30, facts regenerated (facts record roles: recv, param<k>,
    `lockMode` everywhere in lock.go, receiver `target` -> `t` in BuildLockFile  method names â€” not identifiers)
 M7 please.go runPlease: AcquireSharedRepoLock -> AcquireExclusiveRepoLock   -> exit 0, 37/37: invocations serialise, the property still holds
